@@ -66,6 +66,46 @@ def run_impl(kind, segs, maxes, total, runtime="sync"):
     return obs
 
 
+def run_pair(kind, d1, d2, take1, interleave):
+    """two hand-over streams alive at once (two connections of one pool to two origins): the first one is read only in part before
+    the second is opened; each must still deliver exactly its own leading bytes, in order"""
+    import httpcore
+    head = b"HTTP/1.1 101 Switching Protocols\r\nUpgrade: websocket\r\n\r\n" if kind == "101" else b"HTTP/1.1 200 Connection established\r\n\r\n"
+    peers = [h1gen.OpenPeer([head + d1], eof=False), h1gen.OpenPeer([head + d2], eof=False)]
+    it = iter(peers)
+    net = simnet.Net(simnet.Behavior(peer_factory=lambda rec: next(it)))
+    out = {"r1": b"", "r2": b"", "outcome": "pending"}
+
+    def req(pool, host):
+        if kind == "101":
+            return pool.stream("GET", f"http://{host}/ws", headers=[("Connection", "upgrade"), ("Upgrade", "websocket")])
+        return pool.stream("CONNECT", httpcore.URL(scheme=b"http", host=host.encode(), port=80, target=b"target.example:443"))
+    try:
+        with propbase.time_limit(5.0):
+            with httpcore.ConnectionPool(network_backend=simnet.SimBackend(net)) as pool:
+                with req(pool, "a.example") as ra:
+                    na = ra.extensions["network_stream"]
+                    if take1:
+                        out["r1"] += na.read(max_bytes=take1, timeout=5)
+                    with req(pool, "b.example") as rb:
+                        nb = rb.extensions["network_stream"]
+                        for k in range(200):
+                            progressed = False
+                            for name, ns, want in (("r2", nb, d2), ("r1", na, d1)) if interleave else (("r1", na, d1), ("r2", nb, d2)):
+                                if len(out[name]) < len(want):
+                                    out[name] += ns.read(max_bytes=3 if interleave else 65536, timeout=5)
+                                    progressed = True
+                            if not progressed:
+                                break
+            out["outcome"] = "complete"
+    except propbase.HangDetected:
+        out["outcome"] = "hang"
+    except BaseException as e:  # noqa
+        out["outcome"] = "starved" if isinstance(e, simnet.Starved) else "error:" + simnet.exc_name(e)
+        out["exc"] = repr(e)[:200]
+    return out
+
+
 def run(ctx, driver):
     rng = ctx.rng
     dist = collections.Counter()
@@ -103,6 +143,23 @@ def run(ctx, driver):
                 else:
                     maxes = [rng.choice([1, 2, 3]) for _ in range(len(d) + 4)]
                 cases.append((kind, head, d, segs, maxes))
+    # two hand-over streams alive at once, the first abandoned part-way while the second is read
+    pair_fails = []
+    for i in range(40 if ctx.quick else 1000):
+        kind = ("101", "connect")[i % 2]
+        d1 = bytes(rng.randrange(256) for _ in range(rng.choice([1, 5, 40, 300])))
+        d2 = bytes(rng.randrange(256) for _ in range(rng.choice([0, 1, 7, 40, 300])))
+        take1 = rng.choice([0, 1, len(d1) // 2])
+        inter = rng.random() < 0.5
+        o = run_pair(kind, d1, d2, take1, inter)
+        dist["pair:" + o["outcome"]] += 1
+        distinct.add(("pair", kind, d1, d2, take1, inter))
+        if o["outcome"] != "complete" or o["r1"] != d1 or o["r2"] != d2:
+            pair_fails.append({"property": ID, "kind": kind, "d1": d1.hex()[:80], "d2": d2.hex()[:80], "take1": take1, "interleave": inter,
+                               "got1": o["r1"].hex()[:80], "got2": o["r2"].hex()[:80], "outcome": o["outcome"], "exc": o.get("exc")})
+    for payload in pair_fails[:2]:
+        path = core.write_replay(ctx, f"fail_{core.digest(payload)}", dict(payload, oracle_clause="bytes-lost-or-reordered"))
+        ctx.violations.append({"clause": "bytes-lost-or-reordered", "replay": path})
     # a read returns at most READ_NUM_BYTES: pre-split so model and implementation see the same reads
     cases = [(k, h, d, [s[i:i + 65536] for s in segs for i in range(0, len(s), 65536)], m) for k, h, d, segs, m in cases]
     lines = []
